@@ -110,6 +110,20 @@ Theorem C16_purchase_message_roundtrip : forall (sch : schema) (d : nat) (m : N)
 Proof. exact purchase_all_roundtrip. Qed.
 Print Assumptions C16_purchase_message_roundtrip.
 
+(* legacy v1 claims: the payload a legacy signature covers = the message without its publisherSignature
+   (field 5); it holds exactly the other fields, and is the message itself when there is no signature *)
+Theorem C16_legacy_unsigned_payload : forall fs : list field, forallb field_ok fs = true ->
+  v1_unsigned_payload (ser_fields fs) = WOk (ser_fields (drop_field V1_SIGNATURE_FIELD fs)) /\
+  wire_parse (ser_fields (drop_field V1_SIGNATURE_FIELD fs)) = WOk (drop_field V1_SIGNATURE_FIELD fs) /\
+  ((forall f, In f fs -> fst f <> V1_SIGNATURE_FIELD) -> v1_unsigned_payload (ser_fields fs) = WOk (ser_fields fs)).
+Proof. exact v1_unsigned_payload_spec. Qed.
+Print Assumptions C16_legacy_unsigned_payload.
+
+Theorem C16_drop_field_spec : forall (k : N) (fs : list field) (f : field),
+  In f (drop_field k fs) <-> In f fs /\ fst f <> k.
+Proof. exact drop_field_spec. Qed.
+Print Assumptions C16_drop_field_spec.
+
 (* ================= (c) URLs ================= *)
 
 (* every well-formed URL value prints to a string that parses back to exactly that value *)
@@ -225,4 +239,8 @@ Example C16_ex_bad_modifier : bad_modifier 58 [103] /\ bad_modifier 36 [48].
 Proof. exact bad_modifier_inhabited. Qed.
 Example C16_ex_claim_id : (claim_id_of_hash [x01; xab; xff], hash_of_claim_id [x66; x46; x61; x62; x30; x31]) =
                           ([x66; x66; x61; x62; x30; x31], Some [x01; xab; xff]).
+Proof. vm_compute. reflexivity. Qed.
+Example C16_ex_unsigned_payload :
+  v1_unsigned_payload (ser_fields [(1, WVarint 1); (3, WLen [x61]); (5, WLen [x08; x01])]) =
+  WOk (ser_fields [(1, WVarint 1); (3, WLen [x61])]).
 Proof. vm_compute. reflexivity. Qed.
